@@ -27,14 +27,14 @@ macro_rules
     simp +decide only [$ls,*, Rt.shrC, Rt.shlC, Rt.ITy.bits, Rt.ck, Rt.ITy.lo, Rt.ITy.hi, Rt.ITy.signed, bind_assoc_app, pure_bind_app, write_bind_app, read_bind_app, ofOpt_some_bind_app, ofOpt_none_bind_app,
       throw_bind_app, panic_bind_app, write_app, writeWithPayload_app, writeWithPayload_bind_app, pure_app, pure_app', throw_app,
       ofOpt_some_app, ite_app, ite_bind_app, Sx126x.addr1_val,
-      idx_fill_one, chipDev_fst, chipDev_snd, List.length_cons, List.length_nil,
+      idx_fill_one, beBytes_u16, beBytes_u32, idx_zero, idx_one, idx_two, idx_three, chipDev_fst, chipDev_snd, List.length_cons, List.length_nil,
       Sx126x.regR8, Sx126x.regW8, Sx126x.addr1_ret, ofOpt,
       Model.Phy.pure_eq_ret, Model.Phy.bind_eq, Model.Phy.bind_ret, Model.Phy.bind_fail, prog_bind_assoc, prog_bind_ite,
       denote_intfWrite_bind, denote_intfRead_bind, denote_intfWriteWithPayload_bind, denote_intfWriteWithPayload,
       denote_intfWrite, denote_ite, denote_ret, denote_fail, denote_panic, view, beq_self_eq_true, if_true, beq_iff_eq, if_false,
       Bool.false_eq_true, Bool.true_eq_false, if_pos, if_neg, radioErr]
     try simp +decide [$ds,*, toBytes_cons, toInts_cons, toBytes_nil, toInts_nil, Sx126x.op, Sx126x.addr2, OpCode.value, OpCode.toInt,
-      Register.toInt, Register.addr2, Rt.wrap, Rt.ITy.bits, Rt.ITy.signed, byte, Rt.andI, Rt.orI, byteAt_mod, radioErr, view]))
+      Register.toInt, Register.addr2, Rt.wrap, Rt.ITy.bits, Rt.ITy.signed, Rt.notI, Rt.ITy.hi, Rt.ITy.lo, byte, Rt.andI, Rt.orI, Rt.xorI, byteAt_mod, radioErr, view]))
 
 /-! ## parameter records: the model's, as the generated code sees them -/
 
